@@ -424,17 +424,25 @@ pub fn protocol(args: &[String]) {
             let rtol = if case / 20 == 0 { 1e-3 } else { 1e-6 };
             c = Cfg { kind: Kind::Slow, method: m, x0: if back { 2.0 } else { 0.0 }, xend: if back { 0.0 } else { 2.0 }, rtol, atol: rtol * 1e-3, first: None, maxstep: Some(ms), nmax: None };
         }
+        // cases 52..72: the same sweep on a tiny time scale, max_step below every built-in default first step
+        let directed3 = case >= 52 && case < 72;
+        if directed3 {
+            let m = [Method::RK23, Method::DOPRI5, Method::DOP853, Method::RADAU, Method::BDF][(case - 52) % 5];
+            let back = ((case - 52) / 5) % 2 == 1;
+            let (sp, ms) = if (case - 52) / 10 == 0 { (1.03e-5, 2e-7) } else { (4.1e-6, 5e-7) };
+            c = Cfg { kind: Kind::Slow, method: m, x0: if back { sp } else { 0.0 }, xend: if back { 0.0 } else { sp }, rtol: 1e-3, atol: 1e-6, first: None, maxstep: Some(ms), nmax: None };
+        }
         let span = (c.xend - c.x0).abs();
         if span < 1e-6 || span > 10.0 { continue; }
         let sgn = (c.xend - c.x0).signum();
-        if !directed && !directed2 {
+        if !directed && !directed2 && !directed3 {
             if rng.chance(0.3) { c.maxstep = Some(span * rng.range(0.004, 0.05)); }
             // C11 uses well-formed limits only
             c.first = if rng.chance(0.5) { Some(sgn * span * rng.range(0.001, 0.05)) } else { None };
             if let (Some(f), Some(m)) = (c.first, c.maxstep) { if f.abs() > m { c.first = Some(sgn * m * 0.5); } }
         }
-        let linear = directed || (!directed2 && rng.chance(0.4));
-        if linear && !directed { c.kind = *rng.pick(&[Kind::Harmonic, Kind::Decay3, Kind::Slow]); }
+        let linear = directed || directed3 || (!directed2 && rng.chance(0.4));
+        if linear && !directed && !directed3 { c.kind = *rng.pick(&[Kind::Harmonic, Kind::Decay3, Kind::Slow]); }
         let mut p = Prob::new(c.kind);
         p.record_times = true;
         let y0 = p.y0();
